@@ -4,6 +4,7 @@ import (
 	"context"
 	"encoding/json"
 	"fmt"
+	"strings"
 
 	"github.com/oasisprotocol/oasis-core/go/common/crypto/hash"
 	"github.com/oasisprotocol/oasis-core/go/storage/mkvs"
@@ -35,6 +36,11 @@ type RHHistory struct {
 	Replay bool `json:"replay"`
 	// CommitEvery commits after every n-th mutating operation of the fix-up phase (0 = only at the end).
 	CommitEvery int `json:"commit_every"`
+	// Decoy (real backends): before every commit a competing candidate for the same version is
+	// committed from another tree (the same parent with other values under some of the keys), so
+	// that the history's own root is a later candidate of its version; it is read back from the
+	// database before it is finalized (the decoy is discarded by the finalization).
+	Decoy bool `json:"decoy,omitempty"`
 }
 
 // RHKnobs are the knobs of a run.
@@ -91,6 +97,9 @@ func (RootHashEngine) Generate(r *core.Rand, tier core.Tier) *core.Scenario {
 		hc.NodeCap, hc.ValueCap = GenCapacities(r, keys, hc.Backend)
 		if r.Bool() {
 			hc.CommitEvery = r.Range(1, 8)
+		}
+		if (hc.Backend == "badger" || hc.Backend == "pathbadger") && core.NewRand(core.Hash64([]byte(strings.Join(k.Keys, ",")), []byte{byte(h)})^0xdec01).Chance(1, 2) {
+			hc.Decoy = true // (own PRNG: the rest of the scenario is unchanged)
 		}
 		k.Histories = append(k.Histories, hc)
 	}
@@ -283,11 +292,43 @@ func (e RootHashEngine) runHistory(ctx context.Context, h int, hc RHHistory, k R
 	}
 	commit := func(what string) *core.Violation {
 		version++
+		decoyed := false
+		if hc.Decoy && ndb != nil && rootType == node.RootTypeState {
+			var dt mkvs.Tree
+			if haveRoot {
+				dt = mkvs.NewWithRoot(nil, ndb, committedRoot)
+			} else {
+				dt = mkvs.New(nil, ndb, rootType)
+			}
+			n := 0
+			for _, key := range model.SortedKeys() {
+				if n++; n > 4 {
+					break
+				}
+				_ = dt.Insert(ctx, []byte(key), []byte(fmt.Sprintf("decoy %d", version)))
+			}
+			_ = dt.Insert(ctx, []byte("decoy"), []byte{byte(version)})
+			if _, _, err := dt.Commit(ctx, Namespace, version); err == nil {
+				decoyed = true
+				st.Inc("probe.competing_candidate_committed_first")
+			}
+			dt.Close()
+		}
 		wl, root, err := tree.Commit(ctx, Namespace, version)
 		if err != nil {
 			return rhViol("op-error", "op-error", fmt.Sprintf("history %d: commit (%s) failed: %v", h, what, err))
 		}
 		r := node.Root{Namespace: Namespace, Version: version, Type: rootType, Hash: root}
+		if decoyed {
+			// The history's root is a later candidate of its version: what the database serves
+			// under it, before it is finalized, must be the history's contents.
+			ft := mkvs.NewWithRoot(nil, ndb, r)
+			err := CompareDump(ctx, ft, model)
+			ft.Close()
+			if err != nil {
+				return rhViol("candidate-contents-wrong", "candidate-contents-wrong", fmt.Sprintf("history %d (%s): commit %d (%s) produced root %s as the second candidate of its version; read back from the database before finalization: %v", h, hc.Backend, version, what, root, err))
+			}
+		}
 		if ndb != nil {
 			if err := ndb.Finalize([]node.Root{r}); err != nil {
 				return rhViol("op-error", "op-error", fmt.Sprintf("history %d: finalize failed: %v", h, err))
